@@ -30,7 +30,7 @@ def permutations_of(rng: Rng, cfgspec, n):
 
 def gen_case(seed, i, nperm):
     rng = Rng(derive(seed, 'C08', i))
-    spec = modelgen.gen_spec(rng.fork('spec'), profile='many_ports')
+    spec = modelgen.with_generator_local_names(Rng(rng.state, 'locals'), modelgen.gen_spec(rng.fork('spec'), profile='many_ports'), 20)
     cfg = cfggen.gen_cfg(rng.fork('cfg'), spec, explicit_bias=True)
     if rng.chance(25):
         # file names that are not C++ identifiers (the struct name derived from them is C06's business, not C08's)
